@@ -116,10 +116,13 @@ def run(ctx):
                 "3 processes x 1 Get over 2 keys (thorough: all; quick: all 2-process ones and simulated 3-process ones), and every "
                 "Acquire/Release/cancel event sequence to depth 7 (quick: 5) for capacities 0..2 (3 processes, <= 3 Acquires each, contexts live or "
                 "already done -- at most 2 already-done ones per sequence), forced on the real code. "
+                "G: every sequential call sequence of <= 4 Gets over 3 keys x every zero-key subset on all four instantiations. "
+                "Contention scenario (SemaContend.tla): K > N contenders, barrier, cancel all, no Release, thousands of rounds under -race. "
                 "T: race-detector stress without shared instrumentation; stamped invoke/return logs validated by OnceTrace / "
                 "SemaLinTrace / PoolTrace. distinct_nontrivial = distinct schedules / event sequences replayed")
     ctx.assumptions += [
-        "key type string, value type pointer to a fresh object per constructor call",
+        "instantiations OnceConstructor[string,*int], [string,error], [string,any], [int,*int]; the constructor returns a fresh "
+        "distinguishable value per call, or the zero value of V (nil pointer / nil interface) for the keys in the model's zero-key set",
         "gates: syncutil.VerifGate points once.miss / once.stored (build tag verif) and the constructor; no gate between Load hit and the loader call",
         "Release is not tied to a holder in the model; with capacity 0 a Release may hand over to a blocked Acquire (unbuffered channel)",
     ]
@@ -145,14 +148,17 @@ def run(ctx):
     def job(module, cfg, label, **kw):
         jobs.append(dict(spec_dir=d, module=module, cfg=cfg, label=label, workers=kw.pop("workers", w), **kw))
 
-    write_cfg(d / "OnceMC3_run.cfg", "FairSpec", {"Procs": "{1, 2, 3}", "Keys": KEYS, "KeyPlans": "<- OneCallPlans"},
+    write_cfg(d / "OnceMC3_run.cfg", "FairSpec", {"Procs": "{1, 2, 3}", "Keys": KEYS, "KeyPlans": "<- OneCallPlans",
+                                                "ZeroKeySets": "<- SomeZeroKeys" if q else "<- AnyZeroKeys"},
               invariants=ONCE_INV, properties=ONCE_PROP)
     job("OnceMC", "OnceMC3_run.cfg", "once-mc 3 procs x 2 keys")
-    write_cfg(d / "OnceMC2_run.cfg", "FairSpec", {"Procs": "{1, 2}", "Keys": KEYS, "KeyPlans": "<- MixedPlans"},
+    write_cfg(d / "OnceMC2_run.cfg", "FairSpec", {"Procs": "{1, 2}", "Keys": KEYS, "KeyPlans": "<- MixedPlans",
+                                                "ZeroKeySets": "<- SomeZeroKeys" if q else "<- AnyZeroKeys"},
               invariants=ONCE_INV, properties=ONCE_PROP)
     job("OnceMC", "OnceMC2_run.cfg", "once-mc 2 procs x 1..2 Gets")
     if not q:
-        write_cfg(d / "OnceMC3b_run.cfg", "Spec", {"Procs": "{1, 2, 3}", "Keys": KEYS, "KeyPlans": "<- SymTwoCallPlans"},
+        write_cfg(d / "OnceMC3b_run.cfg", "Spec", {"Procs": "{1, 2, 3}", "Keys": KEYS, "KeyPlans": "<- SymTwoCallPlans",
+                                                   "ZeroKeySets": "<- SomeZeroKeys"},
                   invariants=ONCE_INV, properties=["MapStable"])
         job("OnceMC", "OnceMC3b_run.cfg", "once-mc 3 procs x 2 Gets (safety)", timeout=1500, workers=8)
     for n in (0, 1, 2):
@@ -160,23 +166,38 @@ def run(ctx):
                   {"Procs": "{1, 2, 3}", "N": n, "MaxCalls": 2 if q else 3, "MaxRel": 3 if q else 4},
                   invariants=SEMA_INV, properties=SEMA_PROP)
         job("Semaphore", "SemaMC%d_run.cfg" % n, "sema-mc n=%d" % n)
+    # contention scenario: K > N acquirers, barrier, cancel all, no Release
+    for n, procs in ((1, "{1, 2, 3}"), (2, "{1, 2, 3, 4}"), (3, "{1, 2, 3, 4}" if q else "{1, 2, 3, 4, 5}")):
+        write_cfg(d / ("SemaContend%d_run.cfg" % n), "CSpec", {"Procs": procs, "N": n, "MaxCalls": 1, "MaxRel": 0},
+                  invariants=["TypeOK", "HoldersBound", "CancelWhenFull", "SettledFull", "LosersGetErr"],
+                  properties=["EveryoneReturns", "ErrOnlyWhenDone"])
+        job("SemaContend", "SemaContend%d_run.cfg" % n, "sema-contend n=%d" % n, workers=2)
     write_cfg(d / "PoolMC_run.cfg", "Spec", {"Procs": "{1, 2, 3}", "MaxObjs": 3, "MaxOps": 7 if q else 9},
               invariants=["TypeOK", "SingleOwner", "FreeNotHeld"])
     job("Pool", "PoolMC_run.cfg", "pool-mc")
 
     gen_inv = ["Emit", "GenOK", "NoStuck"]
     write_cfg(d / "OnceGen2_run.cfg", "GSpec", {"Procs": "{1, 2}", "Keys": KEYS, "KeyPlans": "<- SymTwoCallPlans",
+                                                "ZeroKeySets": "<- AnyZeroKeys",
                                                 "OutFile": '"once_sched_2.ndjson"'}, invariants=gen_inv)
     job("OnceGen", "OnceGen2_run.cfg", "once-gen 2 procs")
+    # binding G: sequential call sequences (one goroutine, up to 4 Gets over 3 keys, every zero-key subset)
+    write_cfg(d / "OnceGenSeq_run.cfg", "GSpec", {"Procs": "{1}", "Keys": '{"a", "b", "c"}', "KeyPlans": "<- SeqPlans",
+                                                  "ZeroKeySets": "<- AnyZeroKeys",
+                                                  "OutFile": '"once_seq.ndjson"'}, invariants=gen_inv)
+    job("OnceGen", "OnceGenSeq_run.cfg", "once-gen sequential", workers=2)
     if q:
         write_cfg(d / "OnceGen3_run.cfg", "GSpec", {"Procs": "{1, 2, 3}", "Keys": KEYS, "KeyPlans": "<- OneCallPlans",
+                                                    "ZeroKeySets": "<- AnyZeroKeys",
                                                     "OutFile": '"once_sched_3.ndjson"'}, invariants=gen_inv)
         job("OnceGen", "OnceGen3_run.cfg", "once-gen 3 procs (simulated)", simulate=1200, depth=60)
     else:
         write_cfg(d / "OnceGen3_run.cfg", "GSpec", {"Procs": "{1, 2, 3}", "Keys": KEYS, "KeyPlans": "<- SymOneCallPlans",
+                                                    "ZeroKeySets": "<- SomeZeroKeys",
                                                     "OutFile": '"once_sched_3.ndjson"'}, invariants=gen_inv)
         job("OnceGen", "OnceGen3_run.cfg", "once-gen 3 procs", timeout=1500, workers=8)
         write_cfg(d / "OnceGen3s_run.cfg", "GSpec", {"Procs": "{1, 2, 3}", "Keys": KEYS, "KeyPlans": "<- MixedPlans",
+                                                     "ZeroKeySets": "<- AnyZeroKeys",
                                                      "OutFile": '"once_sched_3s.ndjson"'}, invariants=gen_inv)
         job("OnceGen", "OnceGen3s_run.cfg", "once-gen 3 procs x 1..2 Gets (simulated)", simulate=4000, depth=90)
     depth = 5 if q else 7
@@ -191,14 +212,18 @@ def run(ctx):
     n2 = count_lines(d / "once_sched_2.ndjson")
     n3 = count_lines(d / "once_sched_3.ndjson")
     nsema = sum(count_lines(d / ("sema_sched_%d.ndjson" % n)) for n in (0, 1, 2))
-    ctx.extra["schedules_enumerated"] = {"once_2_procs": n2, "once_3_procs": n3, "semaphore_event_sequences": nsema}
+    ctx.extra["schedules_enumerated"] = {"once_2_procs": n2, "once_3_procs": n3, "semaphore_event_sequences": nsema,
+                                         "once_sequential_call_sequences": count_lines(d / "once_seq.ndjson")}
 
     # ------------------------------------------------------ 3. schedule replay
     b_plain.result()
-    rjobs = [(["c17", "replay-once", d / "once_sched_2.ndjson", ctx.scratch / "once2.res", 1], "once2.res"),
-             (["c17", "replay-once", d / "once_sched_3.ndjson", ctx.scratch / "once3.res", 1], "once3.res")]
+    # Instantiations: every schedule runs on one of OnceConstructor[string,*int] / [string,error] /
+    # [string,any] / [int,*int] ("cycle"); the sequential call sequences run on all four.
+    rjobs = [(["c17", "replay-once", d / "once_sched_2.ndjson", ctx.scratch / "once2.res", 1, "cycle"], "once2.res"),
+             (["c17", "replay-once", d / "once_sched_3.ndjson", ctx.scratch / "once3.res", 1, "cycle"], "once3.res"),
+             (["c17", "replay-once", d / "once_seq.ndjson", ctx.scratch / "onceseq.res", 1, "all"], "onceseq.res")]
     if not q:
-        rjobs.append((["c17", "replay-once", d / "once_sched_3s.ndjson", ctx.scratch / "once3s.res", 1], "once3s.res"))
+        rjobs.append((["c17", "replay-once", d / "once_sched_3s.ndjson", ctx.scratch / "once3s.res", 1, "cycle"], "once3s.res"))
     # VerifGate is a process-wide hook: OnceConstructor replays run one after the other inside a process
     # (separate processes are independent).  Semaphore sequences have no global state and are sharded.
     shards = 1 if q else max(2, min(6, NCPU // 2))
@@ -231,6 +256,23 @@ def run(ctx):
         builder.shutdown(wait=True)
         return
 
+    # ---- 4a. contention scenario (SemaContend.tla) on the real code, un-instrumented, -race.
+    # First among the free-running stages: an Acquire that can get stuck ignoring its context
+    # could also stall the stamped stress below.
+    b_race.result()
+    ctx.vh(["c17", "race-contend", ctx.scratch / "contend.res", 1500 if q else 12000], race=True, ok_codes=(0, 66), timeout=1800)
+    sc = ctx.collect(ctx.scratch / "contend.res")
+    ncr = _race(ctx, "ChanSemaphore contention")
+    ctx.evaluations += sc["calls"]
+    ctx.extra["contention_scenario"] = {"rounds": sc["rounds"], "acquires": sc["calls"],
+                                        "losers_returned_ctx_err": sc["losers_returned_ctx_err"],
+                                        "race_reports_with_golibs_frames": ncr}
+    mark("contention_scenario")
+    if ctx.mismatches:
+        ctx.extra["free_running_stress"] = "skipped after the contention scenario found violations"
+        builder.shutdown(wait=True)
+        return
+
     # ------------------- 4. phase B: stamped logs, validated by TLC (binding T)
     # (before phase A so that an ownership / bound violation is reported as such
     # and not as the harness-frame race it also causes)
@@ -255,7 +297,7 @@ def run(ctx):
         tf = "once_trace_%d.ndjson" % i
         trace(["c17", "stress-once", d / tf, ctx.scratch / ("so%d.res" % i), 25 if q else 40], tf, "so%d.res" % i,
               "OnceTrace", "OnceTrace%d_run.cfg" % i,
-              {"AProcs": "<- TraceProcs", "AKeys": '{"k0", "k1", "k2", "k3"}', "NoKey": '"-"', "AVals": "{}", "TraceFile": '"%s"' % tf},
+              {"AProcs": "<- TraceProcs", "AKeys": '{"a", "b", "c", "d"}', "NoKey": '"-"', "AVals": "{}", "TraceFile": '"%s"' % tf},
               ["OnceOnlyT"], "OnceConstructor stress log", False, i)
     for n in ((1, 2, 0) if q else (0, 1, 2, 3)):
         for i in range(1 if q else 2):
@@ -307,7 +349,11 @@ def replay(ctx, path):
     mode = "replay-once" if "schedule" in det else "replay-sema"
     vf = ctx.scratch / "one.ndjson"
     vf.write_text(json.dumps(vec) + "\n")
-    args = ["c17", mode, vf, ctx.scratch / "one.res", 1] + ([0, 1] if mode == "replay-sema" else [])
+    inst = "ptr"
+    for name in ("error", "any", "intkey"):
+        if r.get("key", "").endswith("[%s]" % name):
+            inst = name
+    args = ["c17", mode, vf, ctx.scratch / "one.res", 1] + ([0, 1] if mode == "replay-sema" else [inst])
     ctx.vh(args)
     ctx.collect(ctx.scratch / "one.res")
     if ctx.mismatches:
